@@ -64,7 +64,10 @@ pub enum Step {
   Repeat,
   /// Bottom-up session: schedule the reported resources (None = the complete set of changes computed by the harness),
   /// update affected tasks, then require `then_require` in the same session.
-  BottomUp { report: Option<Vec<usize>>, then_require: Vec<Tid> },
+  /// `pre_require`: tasks required top-down in the same session before the bottom-up build (resources that those
+  /// executions write are added to the report). `shape` bit 0: a first bottom-up build is created, gets the report and
+  /// is dropped without being run; bit 1: a second bottom-up build with the same report follows in the same session.
+  BottomUp { report: Option<Vec<usize>>, then_require: Vec<Tid>, #[serde(default)] pre_require: Vec<Tid>, #[serde(default)] shape: u8 },
   /// New session requiring every task known to the instance.
   ProbeAll,
 }
@@ -121,11 +124,16 @@ pub struct GenCfg {
   /// Use pie's file resource (family 4) as a backend too.
   pub files: bool,
   pub proc_replay: bool,
+  /// Bottom-up sessions that also require tasks top-down before the build, create a build that is dropped unused, or
+  /// run a second build with the same report (all inside one session).
+  pub in_session: bool,
+  /// Larger bounds: 8..14 tasks, 4..10 resources, 6..16 history steps, longer scripts.
+  pub xl: bool,
 }
 
 impl Default for GenCfg {
   fn default() -> Self {
-    GenCfg { class: Class::W, bottom_up: 0, td_between: false, all_roots_td: false, crash: false, check_errors: false, rw_errors: false, exact_only_pct: 40, sim_fams_only: true, replays: 0, big: false, wrappers: false, files: false, proc_replay: false }
+    GenCfg { class: Class::W, bottom_up: 0, td_between: false, all_roots_td: false, crash: false, check_errors: false, rw_errors: false, exact_only_pct: 40, sim_fams_only: true, replays: 0, big: false, wrappers: false, files: false, proc_replay: false, in_session: false, xl: false }
   }
 }
 
@@ -280,23 +288,24 @@ fn always_required(ops: &[Op], chain: &BTreeMap<Tid, BTreeSet<Tid>>) -> BTreeSet
 }
 
 pub fn gen_keys(rng: &mut Rng, ntasks: usize, nres: usize, sim_only: bool, wrappers: bool, files: bool) -> (Vec<TaskKey>, Vec<ResKey>) {
+  let wide = ntasks > 8 || nres > 8;
   // Ids are drawn from a small range so that different families share ids (identity = (type, value)).
   let mut tasks = vec![];
   while tasks.len() < ntasks {
-    let k = if wrappers { TaskKey { fam: *rng.pick(&[0u8, 0, 5, 5, 6, 1, 2]), id: rng.below(2) as u32 } } else { TaskKey { fam: rng.below(5) as u8, id: rng.below(4) as u32 } };
+    let k = if wrappers { TaskKey { fam: *rng.pick(&[0u8, 0, 5, 5, 6, 1, 2]), id: rng.below(if wide { 4 } else { 2 }) as u32 } } else { TaskKey { fam: rng.below(5) as u8, id: rng.below(4) as u32 } };
     if !tasks.contains(&k) { tasks.push(k); }
   }
   let mut res = vec![];
   let nfam = if files { 5 } else if sim_only { 2 } else { 4 };
   while res.len() < nres {
-    let k = ResKey { fam: rng.below(nfam) as u8, id: rng.below(4) as u32 };
+    let k = ResKey { fam: rng.below(nfam) as u8, id: rng.below(if wide { 7 } else { 4 }) as u32 };
     if !res.contains(&k) { res.push(k); }
   }
   (tasks, res)
 }
 
 pub fn gen_program_w(rng: &mut Rng, cfg: &GenCfg) -> Program {
-  let (ntasks, nres) = if cfg.big { (rng.range(5, 8) as usize, rng.range(2, 4) as usize) } else { (rng.range(2, 8) as usize, rng.range(2, 8) as usize) };
+  let (ntasks, nres) = if cfg.xl { (rng.range(8, 14) as usize, if cfg.big { rng.range(3, 6) } else { rng.range(4, 10) } as usize) } else if cfg.big { (rng.range(5, 8) as usize, rng.range(2, 4) as usize) } else { (rng.range(2, 8) as usize, rng.range(2, 8) as usize) };
   gen_program_w_sized(rng, cfg, ntasks, nres)
 }
 
@@ -315,7 +324,7 @@ pub fn gen_program_w_sized(rng: &mut Rng, cfg: &GenCfg, ntasks: usize, nres: usi
   }
   let mut tasks: Vec<TaskDef> = keys.iter().map(|k| TaskDef { key: *k, ops: vec![] }).collect();
   let mut chain: BTreeMap<Tid, BTreeSet<Tid>> = BTreeMap::new();
-  let max_len = rng.range(2, 6);
+  let max_len = if cfg.xl { rng.range(3, 8) } else { rng.range(2, 6) };
   for me in (0..ntasks).rev() {
     let mut g = TaskGen { rng, me, ntasks, resources: &resources, writer: &writer, exact_only, rchk: BTreeMap::new(), ochk: BTreeMap::new(), wchk: &wchk, chain: &chain };
     let mut required = BTreeSet::new();
@@ -341,7 +350,7 @@ pub fn gen_history(rng: &mut Rng, prog: &Program, cfg: &GenCfg) -> (Vec<(usize, 
   let mut init = vec![];
   let init_pct = rng.range(40, 90);
   for r in 0..nres { if rng.chance(init_pct) { init.push((r, rng.below(NVALS as u64) as Val)); } }
-  let nsteps = if cfg.big { rng.range(4, 12) as usize } else { rng.range(2, 10) as usize };
+  let nsteps = if cfg.xl { rng.range(6, 16) as usize } else if cfg.big { rng.range(4, 12) as usize } else { rng.range(2, 10) as usize };
   let mut steps = vec![];
   let mut faults = BTreeMap::new();
   let root_pct = rng.range(20, 70);
@@ -374,7 +383,9 @@ pub fn gen_history(rng: &mut Rng, prog: &Program, cfg: &GenCfg) -> (Vec<(usize, 
       5..=8 => {
         if rng.chance(cfg.bottom_up) {
           let then_require = if rng.chance(40) { roots(rng, false) } else { vec![] };
-          steps.push(Step::BottomUp { report: None, then_require });
+          let pre_require = if cfg.in_session && rng.chance(45) { roots(rng, false) } else { vec![] };
+          let shape = if cfg.in_session { *rng.pick(&[0u8, 0, 0, 0, 1, 2, 2, 3]) } else { 0 };
+          steps.push(Step::BottomUp { report: None, then_require, pre_require, shape });
           if rng.chance(70) { steps.push(Step::ProbeAll); }
         } else if cfg.bottom_up == 0 || cfg.td_between || cfg.all_roots_td {
           steps.push(Step::TopDown { roots: roots(rng, cfg.all_roots_td) });
@@ -391,11 +402,11 @@ pub fn gen_history(rng: &mut Rng, prog: &Program, cfg: &GenCfg) -> (Vec<(usize, 
     let is_build = matches!(s, Step::TopDown { .. } | Step::BottomUp { .. } | Step::ProbeAll);
     if !is_build { continue; }
     let mut f = StepFault::default();
-    if cfg.crash && rng.chance(35) { f.crash_at = Some(rng.range(1, 40)); }
+    if cfg.crash && rng.chance(35) { f.crash_at = Some(if cfg.xl { rng.range(1, 120) } else { rng.range(1, 40) }); }
     if cfg.check_errors && rng.chance(45) {
       if rng.chance(60) {
         let n = rng.range(1, 3);
-        for _ in 0..n { f.check_err_calls.push(rng.range(1, 12)); }
+        for _ in 0..n { f.check_err_calls.push(if cfg.xl { rng.range(1, 30) } else { rng.range(1, 12) }); }
         f.check_err_calls.sort();
         f.check_err_calls.dedup();
       } else {
@@ -416,7 +427,7 @@ pub fn gen_history(rng: &mut Rng, prog: &Program, cfg: &GenCfg) -> (Vec<(usize, 
       if i + 2 < steps.len() && rng.chance(50) && !faults.contains_key(&(i + 1)) && !faults.contains_key(&(i + 2)) {
         let res = if has_mode && rng.chance(50) { nres - 1 } else { rng.below(nres as u64) as usize };
         steps[i + 1] = Step::Change { res, val: Some(rng.below(NVALS as u64) as Val) };
-        steps[i + 2] = Step::BottomUp { report: None, then_require: vec![] };
+        steps[i + 2] = Step::BottomUp { report: None, then_require: vec![], pre_require: vec![], shape: 0 };
       }
     }
   }
@@ -585,9 +596,9 @@ pub fn gen_program_vx(rng: &mut Rng, cfg: &GenCfg, want: u64) -> Program {
 }
 
 fn gen_program_v_inj(rng: &mut Rng, cfg: &GenCfg, inject: Option<u64>) -> Program {
-  let (ntasks, nres) = if cfg.big { (rng.range(4, 7) as usize, rng.range(2, 4) as usize) } else { (rng.range(2, 6) as usize, rng.range(2, 5) as usize) };
+  let (ntasks, nres) = if cfg.xl { (rng.range(6, 10) as usize, rng.range(3, 7) as usize) } else if cfg.big { (rng.range(4, 7) as usize, rng.range(2, 4) as usize) } else { (rng.range(2, 6) as usize, rng.range(2, 5) as usize) };
   let ncases = rng.range(2, 3) as usize;
-  let mut c2 = GenCfg { exact_only_pct: cfg.exact_only_pct, big: cfg.big, ..GenCfg::default() };
+  let mut c2 = GenCfg { exact_only_pct: cfg.exact_only_pct, big: cfg.big, xl: cfg.xl, ..GenCfg::default() };
   c2.sim_fams_only = cfg.sim_fams_only;
   let base = gen_program_w_sized(rng, &c2, ntasks, nres);
   let mut cases: Vec<Vec<Vec<Op>>> = vec![vec![]; ntasks]; // per task: per case: ops
